@@ -127,6 +127,9 @@ pub struct Profile {
     pub first_items: IntDist,
     pub updates: IntDist,
     /// what the later rounds do, in order (round 1 is the first entry); rounds beyond the list are mixed
+    /// probability that a later round of an index swaps items: as many deletions of stored ids as additions of
+    /// new ids, nothing else (the item COUNT stays the same across the build)
+    pub p_swap_round: f64,
     pub round_kinds: Vec<RoundKind>,
     /// when not empty: `round_kinds` is drawn per case from these (weight, plan) pairs
     pub round_plans: Vec<(u32, Vec<RoundKind>)>,
@@ -1584,6 +1587,26 @@ impl<'p> Gen<'p> {
                             }
                             bail_if_dead!(self.step(ex, Op::Del(w, id)));
                         }
+                    }
+                    continue;
+                }
+                if !first && p.p_swap_round > 0.0 && self.idx[i].items.len() >= 2 && self.r.chance(p.p_swap_round) {
+                    let n = self.idx[i].items.len();
+                    let k = 1 + self.r.below((n / 2).min(4) as u64) as usize;
+                    let w = self.idx[i].w();
+                    bail_if_dead!(ex.exec(&Op::Note(format!("swap round: {k} deletions, {k} additions"))));
+                    for _ in 0..k {
+                        if let Some(id) = self.present_id(i) {
+                            bail_if_dead!(self.step(ex, Op::Del(w, id)));
+                        }
+                    }
+                    for _ in 0..2 * k {
+                        if self.idx[i].items.len() >= n || self.txn_broken {
+                            break;
+                        }
+                        let id = self.absent_id(i);
+                        let v = self.gen_vec(i);
+                        bail_if_dead!(self.step(ex, Op::Add(w, id, v)));
                     }
                     continue;
                 }
